@@ -35,9 +35,35 @@ def e9_csv(ctx):
             if h is not None and h.module == f.module and h.node is not f.node:
                 region.append((h, c))
 
-    def trailing_slice_of(e, v):
-        return isinstance(e, ast.Subscript) and dotted(e.value) == v and isinstance(e.slice, ast.Slice) and e.slice.lower is None \
+    def is_trailing_slice(e):
+        return isinstance(e, ast.Subscript) and isinstance(e.slice, ast.Slice) and e.slice.lower is None \
             and isinstance(e.slice.upper, ast.UnaryOp) and isinstance(e.slice.upper.op, ast.USub) and e.slice.step is None
+
+    def derived(e, fn, base, depth=0):
+        """Is expression `e` (in function node fn) the text `base` yields, shortened at most by trailing slices?  base(e) says
+        whether e is the text itself (the getvalue() call, or the helper's parameter)."""
+        if depth > 6:
+            return False
+        if base(e):
+            return True
+        if is_trailing_slice(e):
+            return derived(e.value, fn, base, depth + 1)
+        if isinstance(e, ast.Name):
+            vals = [a_.value for a_ in walk_no_nested(fn) if isinstance(a_, ast.Assign) and len(a_.targets) == 1
+                    and isinstance(a_.targets[0], ast.Name) and a_.targets[0].id == e.id]
+            # a name that shortens itself (`r = r[:-1]`) is fine as long as its first value is the text
+            vals = [v_ for v_ in vals if not (is_trailing_slice(v_) and dotted(v_.value) == e.id)]
+            return bool(vals) and all(derived(v_, fn, base, depth + 1) for v_ in vals)
+        if isinstance(e, ast.Call) and isinstance(e.func, ast.Name) and len(e.args) == 1 and not e.keywords:
+            r_ = m.resolve_expr(f.module, e.func)
+            h_ = m.functions.get(r_[0][1]) if r_ and r_[0] and r_[0][0] == "func" else None
+            if h_ is not None and h_.module == f.module:
+                hp = func_params(h_.node)
+                rets_ = [x for x in walk_no_nested(h_.node) if isinstance(x, ast.Return)]
+                pure = bool(rets_) and len(hp) == 1 and all(x.value is not None and derived(x.value, h_.node, lambda z: isinstance(z, ast.Name) and z.id == hp[0], depth + 1)
+                                                            for x in rets_)
+                return pure and derived(e.args[0], fn, base, depth + 1)
+        return False
     src_ok = ok_flow = False
     for g, call in region:
         wr = [c for c in walk_no_nested(g.node) if isinstance(c, ast.Call) and isinstance(c.func, ast.Attribute) and c.func.attr == "writerow"]
@@ -46,30 +72,27 @@ def e9_csv(ctx):
         arg = wr[0].args[0] if wr[0].args else None
         if not (isinstance(arg, ast.List) and len(arg.elts) == 1):
             continue
+        # the default dialect: under QUOTE_MINIMAL a field is quoted for the delimiter, the quote character and the characters of
+        # the *line terminator* - with lineterminator='' or '\n' a bare \r (or \n) in a cell is written unquoted and splits the row
+        ctor = [c for c in walk_no_nested(g.node) if isinstance(c, ast.Call) and call_name(c) in ("csv.writer", "writer")]
+        if not ctor or any(len(c.args) != 1 or c.keywords for c in ctor):
+            continue
         cell = ast.unparse(arg.elts[0]).replace(" ", "")
         if call is None:
             src_ok = cell == "node.object"
         else:
             ps = [p_ for p_ in func_params(g.node) if p_ != "self"]
             src_ok = cell in ps and ps.index(cell) < len(call.args) and ast.unparse(call.args[ps.index(cell)]).replace(" ", "") == "node.object"
-        # the text: BUF.getvalue(), shortened only by trailing slices, is what is written (or returned and then written)
-        gv = [a for a in walk_no_nested(g.node) if isinstance(a, ast.Assign) and isinstance(a.targets[0], ast.Name) and isinstance(a.value, ast.Call)
-              and isinstance(a.value.func, ast.Attribute) and a.value.func.attr == "getvalue"]
-        if not gv:
-            continue
-        v = gv[0].targets[0].id
-        others = [a.value for a in walk_no_nested(g.node) if isinstance(a, ast.Assign) and isinstance(a.targets[0], ast.Name)
-                  and a.targets[0].id == v and a is not gv[0]]
-        good_val = lambda e: dotted(e) == v or trailing_slice_of(e, v)
-        if not all(trailing_slice_of(o, v) for o in others):
+        is_text = lambda z: isinstance(z, ast.Call) and isinstance(z.func, ast.Attribute) and z.func.attr == "getvalue"
+        if not any(is_text(x) for x in walk_no_nested(g.node)):
             continue
         writes = [c for c in walk_no_nested(f.node) if isinstance(c, ast.Call) and isinstance(c.func, ast.Attribute)
                   and c.func.attr == "write" and dotted(c.func.value) == "printer"]
         if call is None:
-            ok_flow = len(writes) == 1 and good_val(writes[0].args[0])
+            ok_flow = len(writes) == 1 and bool(writes[0].args) and derived(writes[0].args[0], g.node, is_text)
         else:
             rets = [r_ for r_ in walk_no_nested(g.node) if isinstance(r_, ast.Return)]
-            ok_flow = bool(rets) and all(r_.value is not None and good_val(r_.value) for r_ in rets) \
+            ok_flow = bool(rets) and all(r_.value is not None and derived(r_.value, g.node, is_text) for r_ in rets) \
                 and len(writes) == 1 and writes[0].args and writes[0].args[0] is call
     if src_ok and ok_flow:
         ctx.proved("E9-csv", f.file, "CSVFormatter.print_LeafNode", f.node, "csv leaf encoding",
